@@ -66,4 +66,11 @@ PROPS = {
         suites=[dict(driver="agent", suite="identity", env={"VERIF_DRIVER": "1"})],
         assumptions=["http.ReadRequest canonicalises header field names", "ReverseProxy forwards X-Inverting-Proxy-User-Id and drops nothing but hop-by-hop fields (observed end to end)"],
     ),
+    "C13": dict(
+        technique="Lean 4 theorems on the regenerated URL rewrite of the shim open handler (goextract T2) composed with a model of URL.String + gorilla's dial-address derivation, for arbitrary URL structures; differential run with the dial address observed through a NetDialContext hook",
+        level_text="Proof for every URL structure (all fields arbitrary, stronger than what url.Parse can return): after the handler's rewrite the dial outcome is either a refusal or the configured backend, never another peer, and the rewrite result depends on the client URL only through path/query/fragment fields. The rewrite is regenerated from shim.go on every run; the original code is kept as a proved counter-example (opaque URL dials :80).",
+        level_note=STD_NOTE + "Modelled, not verified: net/url String()/Parse and gorilla/websocket's derivation of the dial address (Model/ShimUrl.dialOutcome), validated on every run against the real stack through websocket.DefaultDialer.NetDialContext; ServeMux prefix routing (canonical paths only; ServeMux itself redirects non-canonical paths before repo code runs).",
+        suites=[dict(driver="lib", suite="shimurl")],
+        assumptions=["the configured backend host is a valid non-empty host[:port]"],
+    ),
 }
